@@ -179,6 +179,14 @@ def gen_frames(tier, seed):
         s = rnd_seq(rnd, 8, 60)
         for e in CHEAP + (COSTLY if i % 4 == 0 else []):
             yield [e, gid, s]
+    # long sequences around the 2**8 and 2**16 codon counts (index dtype boundaries), all entry points
+    # (added by the reviewer after a sub-agent noticed new translate() returning garbage for >= 256 codons)
+    for ncod in ((255, 256, 257, 300) if not thorough else (254, 255, 256, 257, 300, 1000, 65535, 65536, 65537)):
+        for extra in (0, 1, 2):
+            s = rnd_seq(rnd, 3 * ncod + extra, 3 * ncod + extra)
+            for gid in (1, 2):
+                for e in CHEAP + (COSTLY if ncod <= 1000 else []):
+                    yield [e, gid, s]
 
 
 def _frame_class(got, s, gid, f, mt):
